@@ -3,6 +3,7 @@ import Comdex.Base.GoSem
 Facts about the Go semantics layer `Comdex.GoSem` used by the `Props/CxxPure.lean` equivalence proofs
 (regenerated translation = hand-written model).  Core Lean only.
 -/
+set_option exponentiation.threshold 512
 namespace Comdex.GoSem
 open Comdex
 
@@ -64,6 +65,73 @@ theorem decQuo_cases (a b : Dec) :
   by_cases h : b = 0
   · exact Or.inl ⟨h, by rw [if_pos h]⟩
   · exact Or.inr ⟨h, by rw [if_neg h]; exact chkDec_cases _⟩
+
+/-! ### agreement with a model that has no overflow checks
+
+`Agrees g m`: the Go computation `g` and the `Option`-valued model `m` (`none` = the model's panic guard) agree wherever the
+code does not overflow: a returned value is the model's value, a non-overflow panic is the model's `none`; an
+overflow-class panic of the code has no counterpart in such a model.  Compositional (`Agrees.bind`). -/
+
+def Agrees {α : Type} (g : M α) (m : Option α) : Prop :=
+  match g with
+  | .ok a => m = some a
+  | .error .panic => m = none
+  | .error .overflow => True
+
+theorem Agrees.bind {α β : Type} {x : M α} {mx : Option α} {f : α → M β} {mf : α → Option β}
+    (hx : Agrees x mx) (hf : ∀ a, Agrees (f a) (mf a)) : Agrees (x >>= f) (mx.bind mf) := by
+  cases x with
+  | ok a =>
+    have : mx = some a := hx
+    subst this
+    exact hf a
+  | error e =>
+    cases e with
+    | overflow => trivial
+    | panic =>
+      have : mx = none := hx
+      subst this
+      rfl
+
+theorem Agrees.pure {α : Type} (a : α) : Agrees (Pure.pure a : M α) (some a) := rfl
+theorem Agrees.ite {α : Type} {c : Prop} [Decidable c] {g1 g2 : M α} {m1 m2 : Option α}
+    (h1 : Agrees g1 m1) (h2 : Agrees g2 m2) : Agrees (if c then g1 else g2) (if c then m1 else m2) := by
+  split
+  · exact h1
+  · exact h2
+theorem Agrees.of_eq {α : Type} {g : M α} {m m' : Option α} (h : Agrees g m) (e : m = m') : Agrees g m' := e ▸ h
+
+theorem Agrees.chkDec (x : Dec) : Agrees (chkDec x) (some x) := by
+  unfold GoSem.chkDec; split
+  · rfl
+  · trivial
+theorem Agrees.chkInt (x : Int) : Agrees (chkInt x) (some x) := by
+  unfold GoSem.chkInt; split
+  · rfl
+  · trivial
+theorem Agrees.decAdd (a b : Dec) : Agrees (decAdd a b) (some (Dec.add a b)) := Agrees.chkDec _
+theorem Agrees.decSub (a b : Dec) : Agrees (decSub a b) (some (Dec.sub a b)) := Agrees.chkDec _
+theorem Agrees.decMul (a b : Dec) : Agrees (decMul a b) (some (Dec.mul a b)) := Agrees.chkDec _
+theorem Agrees.decQuo (a b : Dec) : Agrees (decQuo a b) (if b = 0 then none else some (Dec.quo a b)) := by
+  unfold GoSem.decQuo; split
+  · rfl
+  · exact Agrees.chkDec _
+theorem Agrees.decTruncateInt (a : Dec) : Agrees (decTruncateInt a) (some (Dec.truncateInt a)) := Agrees.chkInt _
+theorem Agrees.intAdd (a b : Int) : Agrees (intAdd a b) (some (a + b)) := Agrees.chkInt _
+/-- `Int64()` out of range is an overflow-class panic: no constraint on the model -/
+theorem Agrees.intInt64 (a : Int) : Agrees (intInt64 a) (some a) := by
+  unfold GoSem.intInt64; split
+  · rfl
+  · trivial
+
+/-- build the `Agrees` derivation of a straight-line `do` block step by step; use after `apply Agrees.of_eq`
+(the model side is then a metavariable that the derivation instantiates with an `Option.bind` chain) -/
+macro "agrees_steps" : tactic => `(tactic| repeat (first
+  | exact Agrees.pure _
+  | exact Agrees.decAdd _ _ | exact Agrees.decSub _ _ | exact Agrees.decMul _ _ | exact Agrees.decQuo _ _
+  | exact Agrees.decTruncateInt _ | exact Agrees.intAdd _ _ | exact Agrees.intInt64 _
+  | apply Agrees.bind
+  | intro _))
 
 /-! ### loops -/
 
